@@ -12,12 +12,16 @@ HASHY = [
     'return {"k2": {"z": 1, "a": 2}, "k1": [3, {"y": 1, "x": 2}]};',
     'h = {"a": 1, "A": 2, "b": 3, "B": 4, "c": 5}; n = 0; s = ""; foreach k, v in h { n = n + v; s = s + k; } return [n, s, keys(h), string(h)];',
     'r = []; foreach k, v in {"Key": 1, "key": 2, "KEY": 3} { t(k, v); } return 1;',
+    # hash literals whose KEYS contain hash literals (the compiler orders the pairs by the printed form of the key expression)
+    'return { len({"a": 1, "b": 2}) : "first", len({"b": 1, "a": 2}) : "second" };',
+    'h = { string({"x": 1, "y": 2, "z": 3}) : 1, string({"z": 3, "y": 2, "x": 1}) : 2, string({"y": 2}) : 3 }; return [h, keys(h)];',
     # many constant folds spread over several functions (more than any per-evaluator budget an optimizer might keep)
     "function alpha() { return " + " + ".join(["1"] * 520) + "; } function beta() { return " + " + ".join(["2"] * 520) + "; } function gamma() { return " + " * ".join(["1"] * 520) + "; } return [alpha(), beta(), gamma()];",
 ]
 
 class C19(Prop):
     id = "C19"
+    need_cli = True
     compare_run = True
     property_obs = ("class", "value", "truth", "trace", "vars", "get", "prep", "prog", "uprog")
     rule = ("scripts with hash literals (keys of different types, keys whose printed forms coincide, duplicate keys), several functions, "
@@ -89,10 +93,39 @@ class C19(Prop):
                         break
         return out
 
+    def cli_outputs(self):
+        """what the command-line driver prints (byte-code listing, compile errors) is the same from process to process"""
+        import os, subprocess, tempfile, shutil
+        cli = os.path.join(vlib.BUILD, "evalfilter-cli")
+        if not os.path.exists(cli):
+            return [(None, "the command-line driver does not build")]
+        body = " ".join("a = 1;" for _ in range(9500))
+        scripts = {
+            "bytecode": ["function f() { return 1; } function g() { return 2; } function h() { return 3; } function k(a) { return a; } return [f(), g(), h(), k(4)];",
+                         "function zeta() { return 1 + 1; } function alpha(x) { return x * 2; } function mid() { return alpha(zeta()); } return mid();"],
+            "run": ["function f() { %s } function g() { %s } function h() { %s } return 1;" % (body, body, body)],
+        }
+        out = []
+        tmp = tempfile.mkdtemp(prefix="c19-", dir=vlib.BUILD)
+        try:
+            for sub, srcs in scripts.items():
+                for i, src in enumerate(srcs):
+                    sp = os.path.join(tmp, "%s%d.in" % (sub, i))
+                    open(sp, "w").write(src)
+                    seen = set()
+                    for _ in range(8):
+                        q = subprocess.run([cli, sub, sp], stdout=subprocess.PIPE, stderr=subprocess.PIPE, timeout=120)
+                        seen.add(q.stdout)
+                    if len(seen) > 1:
+                        out.append((None, "`evalfilter %s` prints %d different outputs for the same script (%s...) in 8 processes" % (sub, len(seen), src[:60])))
+        finally:
+            shutil.rmtree(tmp, ignore_errors=True)
+        return out
+
     def extra_checks(self, tier, st, rng=None, cases=None, go=None):
         nproc = 12 if tier == "thorough" else 4
         lines = [c.line() for c in cases]
-        viol = []
+        viol = self.cli_outputs()
         base = {k: {kk: vv for kk, vv in v.items() if kk != "ora"} for k, v in go.items()}
         for p in range(nproc):
             res, crashed = vlib.run_go(lines, tag="C19-proc%d" % p, nshards=1)
